@@ -22,7 +22,7 @@ def s8(v):
 
 def rule_TB1(rep, prog):
     rid = rep.rule("C20-TB1", "codec tables: decode[encode[i]] == i for every symbol, every other decode entry is -1 (invalid) or -2 (padding '='), and the size "
-                   "passed with a decode table equals the length of that table", floor=6)
+                   "passed with a decode table equals the length of that table", floor=5)
     for name, enc, dec in CODECS:
         ge, gd = prog.global_(enc), prog.global_(dec)
         if not ge or not gd or not isinstance(ge.get("init"), list) or not isinstance(gd.get("init"), list):
@@ -247,6 +247,70 @@ def rule_TB6(rep, prog):
                         "format %s lacks a decoder or encoder" % a, sample={"format": a})
 
 
+def rule_BD3b(rep, prog):
+    rid = rep.rule("C20-BD3b", "_dispatch_data_subrange_map hands out a mapping only when the clamped subrange has exactly the requested size (callers read the full "
+                   "requested length from it)", floor=1)
+    fn = prog.fn("_dispatch_data_subrange_map")
+    rep.saw(fn)
+    maps = calls_named(fn, "dispatch_data_create_map")
+    gs = calls_named(fn, "dispatch_data_get_size")
+    ok = bool(maps) and bool(gs)
+    for m in maps:
+        cx = paths.dom_ctx(fn, m)
+        good = False
+        for iid, tv in cx.truth.items():
+            ii = fn.insts[iid]
+            if ii.op == "icmp" and ii.d["pred"] in ("eq", "ne") and tv == (ii.d["pred"] == "eq"):
+                ops = {tuple(ii.ops[0][:2]), tuple(ii.ops[1][:2])}
+                if ("a", 3) in ops and any(("i", g.id) in ops for g in gs):
+                    good = True
+        ok = ok and good
+    rep.require(rid, ok, fn.file + ":" + str(fn.d.get("line")), fn.name, "map-of-short-subrange",
+                "_dispatch_data_subrange_map maps the subrange without having established dispatch_data_get_size(subrange) == size: create_subrange clamps "
+                "out-of-range requests, so callers get a shorter window and read the full length from it (reads past the input; truncated sequences accepted)",
+                sample={"maps": len(maps)})
+
+
+def rule_FR7(rep, prog):
+    rid = rep.rule("C20-FR7", "fragmentation independence of BOM handling: a code unit is treated as a byte-order mark (skipped / rejected) only when the region "
+                   "offset is 0 (the absolute start of the data), never merely at the start of a region", floor=2)
+    fn = prog.fn("___dispatch_transform_from_utf16_block_invoke")
+    rep.saw(fn)
+    boms = [i for i in fn.all_insts() if i.op == "icmp" and i.d["pred"] in ("eq", "ne") and i.ops[1][0] == "c" and i.ops[1][1] in (0xfeff, 0xfffe)]
+    if not boms:
+        rep.unknown(rid, "no BOM comparison found in the UTF-16 decoder")
+    # `offset` is the third parameter of the applier block (region, offset, buffer, size) after the block literal itself
+    def is_offset_zero(ii):
+        if ii.op != "icmp" or ii.d["pred"] not in ("eq", "ne"):
+            return None
+        for a, b in ((ii.ops[0], ii.ops[1]), (ii.ops[1], ii.ops[0])):
+            if b[0] == "c" and b[1] == 0 and tuple(a[:2]) == ("a", 2):
+                return ii.d["pred"] == "eq"
+        return None
+    brs = [i for i in fn.all_insts() if i.op == "br" and len(i.d.get("succs", [])) == 2]
+    for t in boms:
+        edges = 0
+        anchored = True
+        for br in brs:
+            for truth in (True, False):
+                cx = paths.PathCtx(fn)
+                cx.learn(br.ops[0], truth)
+                if cx.truth.get(t.id) != (t.d["pred"] == "eq"):
+                    continue
+                edges += 1
+                # also accept facts that dominate the branch
+                dx = paths.dom_ctx(fn, br)
+                tr = dict(dx.truth); tr.update(cx.truth)
+                if not any(is_offset_zero(fn.insts[iid]) is not None and tv == is_offset_zero(fn.insts[iid]) for iid, tv in tr.items()):
+                    anchored = False
+        if edges == 0:
+            rep.unknown(rid, "no branch edge establishes the BOM comparison at %s" % t.loc)
+            continue
+        rep.require(rid, anchored, t.loc, fn.name, "bom-not-anchored-at-offset-0:%#x" % t.ops[1][1],
+                    "the UTF-16 decoder treats %#x as a byte-order mark without requiring the region offset to be 0: a U+FEFF that happens to start a region is "
+                    "dropped (or the data rejected), so the result depends on how the input is fragmented" % t.ops[1][1], sample={"test": t.loc, "edges": edges})
+
+
 def run(rep, tier="quick", srcdir=None, only=None):
     prog, units = load(UNITS, tier, srcdir)
     rep.units = units
@@ -257,6 +321,10 @@ def run(rep, tier="quick", srcdir=None, only=None):
         rule_BD2(rep, prog)
     if want("C20-BD3"):
         rule_BD3(rep, prog)
+    if want("C20-BD3b"):
+        rule_BD3b(rep, prog)
+    if want("C20-FR7"):
+        rule_FR7(rep, prog)
     if want("C20-BD4"):
         rule_BD4(rep, prog)
     if want("C20-BD5"):
